@@ -43,6 +43,8 @@ def opOf (j : Json) : Option Op :=
   | "factory" => (decoOf (jS (jAt j 1))).map .factory
   | "decorate" => (decoOf (jS (jAt j 1))).map fun d => .decorate d (targetOf (jAt j 2))
   | "apply" => some (.apply (jN (jAt j 1)) (targetOf (jAt j 2)))
+  | "redecorate" => (decoOf (jS (jAt j 1))).map fun d => .redecorate d (jN (jAt j 2))
+  | "reapply" => some (.reapply (jN (jAt j 1)) (jN (jAt j 2)))
   | "call" => (kindOf (jS (jAt j 2))).map fun k => .call (jN (jAt j 1)) k
   | _ => none
 
@@ -60,7 +62,7 @@ def sobsJ : SObs → Json
   | .unclaimed => jArr [jStr "unclaimed"]
 
 /-- case: {"env": null | "<value>", "ops": [["setenv", s] | ["unsetenv"] | ["enable"] | ["disable"] | ["factory", deco]
-    | ["decorate", deco, {"cls","doc"}] | ["apply", k, {"cls","doc"}] | ["call", h, "good"|"positional"|"wrongType"], …]} -/
+    | ["decorate", deco, {"cls","doc"}] | ["apply", k, {"cls","doc"}] | ["redecorate", deco, h] | ["reapply", k, h] | ["call", h, "good"|"positional"|"wrongType"], …]} -/
 def handle (c : Json) : Json :=
   let raw := jL (jF c "ops")
   let ops := raw.filterMap opOf
